@@ -142,18 +142,18 @@ type CacheEvent struct {
 }
 
 type cacheRun struct {
-	Events   []CacheEvent
-	Panic    string
-	Stack    string
-	Steps    uint64
-	Hash     uint64
-	Proj     uint64
-	Dumps    int
-	DumpErr  []string
-	Choices  []simrt.Choice
-	Trace    []TraceStep
-	Stats    simrt.Stats
-	Overlap  map[string]int
+	Events  []CacheEvent
+	Panic   string
+	Stack   string
+	Steps   uint64
+	Hash    uint64
+	Proj    uint64
+	Dumps   int
+	DumpErr []string
+	Choices []simrt.Choice
+	Trace   []TraceStep
+	Stats   simrt.Stats
+	Overlap map[string]int
 }
 
 func flowMsgBytes(proto string, sets []model.Set, tpl *model.Template, seq uint32) []byte {
@@ -365,6 +365,13 @@ func runCache(p *CachePlan, ch *simrt.Choices, trace bool) *cacheRun {
 		sim.GoNamed(fmt.Sprintf("cache-task-%d", ti), false, func() {
 			defer func() { running-- }()
 			for oi, op := range ops {
+				if op.Kind == "sleep" {
+					// simulated seconds pass (anything the cache does "at most once
+					// per second", or by the age of an entry, gets its chance)
+					simrt.Sleep(1100 * time.Millisecond)
+					simrt.Yield(-40)
+					continue
+				}
 				k := p.Keys[op.Key%len(p.Keys)]
 				e := CacheEvent{Task: ti, Kind: op.Kind, Key: op.Key % len(p.Keys), In: op.Ver}
 				ev++
@@ -581,6 +588,7 @@ func genCachePlan(seed int64, prop, tier string) *CachePlan {
 		nTasks = 1
 	}
 	nextVer := 1
+	sleepy := r.Intn(3) == 0 // a third of the histories spread over several simulated seconds
 	lastVer := map[int]int{}
 	totalOps := 0
 	budget := 60
@@ -626,6 +634,9 @@ func genCachePlan(seed int64, prop, tier string) *CachePlan {
 			}
 			if nextVer > 38 && op.Kind == "announce" {
 				op.Kind = "data"
+			}
+			if sleepy && r.Intn(6) == 0 {
+				ops = append(ops, CacheOp{Kind: "sleep"})
 			}
 			ops = append(ops, op)
 			totalOps++
